@@ -4,47 +4,22 @@
    parent chain (shields ignored: "clean") owes nothing, and its counter is what the potential says. *)
 From Coq Require Import ZArith Lia.
 From AV Require Import Base Machine ScopeFrames DeliverInv TreeInv DeliverAlive PotentialInv TreeStep KernelInv
-  PotentialThms DebtInv.
+  PotentialThms DebtInv HdInv.
 
-(* every ARun (HDeliver c) of the run is applied while c is cancelled *)
-Fixpoint ops_dlv (s : st) (ops : list op) : bool :=
-  match ops with
-  | [] => true
-  | o :: r => dlv_ok s o && ops_dlv (fst (step s o)) r
-  end.
-
-Definition reach_ok3 (s : st) : Prop :=
-  exists ops, ops_ok2 init ops = true /\ ops_dlv init ops = true /\ s = final step init ops.
-
-Lemma reach_ok3_ok2 s : reach_ok3 s -> reach_ok2 s.
-Proof. intros [ops [H [_ E]]]. now exists ops. Qed.
-
-Lemma dbh_final ops : forall s, SInv s -> DBH s -> ops_ok s ops = true -> ops_dlv s ops = true ->
-  DBH (final step s ops).
+Lemma dbh_final ops : forall s, reach_ok s -> DBH s -> ops_ok s ops = true -> DBH (final step s ops).
 Proof.
-  induction ops as [|o r IH]; intros s I D H1 H2; cbn in *; [exact D|].
-  apply andb_true_iff in H1. destruct H1 as [Ho H1]. apply andb_true_iff in H2. destruct H2 as [Hd H2].
-  apply IH; [now apply step_inv| |exact H1|exact H2].
-  apply DB_step; [apply I|exact Hd|exact D].
+  induction ops as [|o r IH]; intros s R D H1; cbn in *; [exact D|].
+  apply andb_true_iff in H1. destruct H1 as [Ho H1].
+  apply IH; [now apply reach_ok_step| |exact H1].
+  apply DB_step; [now apply reach_tree| |exact D]. intros c. now apply deliver_handle_cancelled.
 Qed.
 
-Theorem reach_dbh s : reach_ok3 s -> DBH s.
-Proof.
-  intros [ops [H [Hd ->]]]. apply dbh_final; [apply sinv_init|apply DBH_init|now apply ops_ok2_ops_ok|exact Hd].
-Qed.
+Lemma reach_ok_init : reach_ok init.
+Proof. exists []. now split. Qed.
 
-Lemma reach_ok3_step s o :
-  reach_ok3 s -> op_ok s o = true -> unc_ok s o = true -> dlv_ok s o = true -> reach_ok3 (fst (step s o)).
-Proof.
-  intros [ops [H [Hd ->]]] Ho Hu Hv. exists (ops ++ [o]). split; [|split].
-  - clear - H Ho Hu. revert H Ho Hu. generalize init. induction ops as [|a r IH]; intros s0 H Ho Hu; cbn in *.
-    + now rewrite Ho, Hu.
-    + apply andb_true_iff in H. destruct H as [H1 H2]. rewrite H1. cbn. now apply IH.
-  - clear - Hd Hv. revert Hd Hv. generalize init. induction ops as [|a r IH]; intros s0 H Hv; cbn in *.
-    + now rewrite Hv.
-    + apply andb_true_iff in H. destruct H as [H1 H2]. rewrite H1. cbn. now apply IH.
-  - now rewrite final_app.
-Qed.
+(* in every reachable state: debts sit only on hosted scopes, and only below a cancelled scope *)
+Theorem reach_dbh s : reach_ok s -> DBH s.
+Proof. intros [ops [H ->]]. apply dbh_final; [apply reach_ok_init|apply DBH_init|exact H]. Qed.
 
 (* ---------------- the scopes a task hosts are its current scope and scopes above it ---------------- *)
 Lemma stack_anc s t : forall k l, stack s t k l -> forall c, In c l -> exists x, k = Some x /\ anc s c x.
@@ -104,54 +79,50 @@ Proof.
   lia.
 Qed.
 
-Lemma ops_ok3_split ops : forall s, ops_ok2 s ops = true -> ops_dlv s ops = true -> reach_ok3 s ->
-  reach_ok3 (final step s ops).
+Lemma reach_ok2_final ops : forall s, reach_ok2 s -> ops_ok2 s ops = true -> reach_ok2 (final step s ops).
 Proof.
-  induction ops as [|o r IH]; intros s H1 H2 R; cbn in *; [exact R|].
-  apply andb_true_iff in H1. destruct H1 as [Ha H1]. apply andb_true_iff in Ha. destruct Ha as [Ho Hu].
-  apply andb_true_iff in H2. destruct H2 as [Hd H2]. apply IH; auto. now apply reach_ok3_step.
+  induction ops as [|o r IH]; intros s R H; cbn in *; [exact R|].
+  apply andb_true_iff in H. destruct H as [Ha H]. apply andb_true_iff in Ha. destruct Ha as [Ho Hu].
+  apply IH; [now apply reach_ok2_step|exact H].
+Qed.
+
+Lemma alloc_final ops : forall s t, reach_ok2 s -> ops_ok2 s ops = true -> alloc_t s t -> alloc_t (final step s ops) t.
+Proof.
+  induction ops as [|o r IH]; intros s t R H A; cbn in *; [exact A|].
+  apply andb_true_iff in H. destruct H as [Ha H]. apply andb_true_iff in Ha. destruct Ha as [Ho Hu].
+  apply IH; [now apply reach_ok2_step|exact H|]. apply (step_ids s o (reach_ok2_sinv s R) Ho t A).
+Qed.
+
+Lemma clean_no_debt s t : reach_ok2 s -> alloc_t s t -> clean s t -> pending_of s t = 0.
+Proof.
+  intros R A C. pose proof (reach_ok2_reach_ok s R) as R1.
+  apply no_debt_outside_cancelled; auto; [now apply reach_tree|now apply reach_dbh].
 Qed.
 
 (* root tasks: between two states in which no scope around the task is cancelled, cancelling() moves exactly by
    the native cancels and explicit uncancels in between: every delivery the task received from its own scopes
    has been compensated *)
 Theorem cancelling_back_at_entry ops s t :
-  reach_ok3 s -> ops_ok2 s ops = true -> ops_dlv s ops = true -> alloc_t s t -> k_group (tasks s t) = None ->
+  reach_ok2 s -> ops_ok2 s ops = true -> alloc_t s t -> k_group (tasks s t) = None ->
   clean s t -> clean (final step s ops) t ->
   Z.of_nat (k_ncancel (tasks (final step s ops) t)) = (Z.of_nat (k_ncancel (tasks s t)) + ext_count s ops t)%Z.
 Proof.
-  intros R H Hd A G C0 C1.
-  pose proof (reach_ok3_ok2 s R) as R2.
-  pose proof (ops_ok3_split ops s H Hd R) as R1.
-  assert (A1 : alloc_t (final step s ops) t).
-  { clear - R2 H A. revert s R2 H A. induction ops as [|o r IH]; intros s R2 H A; cbn in *; [exact A|].
-    apply andb_true_iff in H. destruct H as [Ha H]. apply andb_true_iff in Ha. destruct Ha as [Ho Hu].
-    apply IH; [now apply reach_ok2_step|exact H|]. apply (step_ids s o (reach_ok2_sinv s R2) Ho t A). }
-  apply cancelling_restored_counter; auto.
-  - apply no_debt_outside_cancelled; auto; [apply (reach_tree s), reach_ok2_reach_ok, R2|now apply reach_dbh].
-  - apply no_debt_outside_cancelled; auto; [apply reach_tree, reach_ok2_reach_ok, reach_ok3_ok2, R1|now apply reach_dbh].
+  intros R H A G C0 C1.
+  apply cancelling_restored_counter; auto; [now apply clean_no_debt|].
+  apply clean_no_debt; [now apply reach_ok2_final|now apply alloc_final|exact C1].
 Qed.
 
 (* any task (group children included): at least that much; the surplus are the deliveries that came from scopes
    hosted by other tasks (the group scope and what lies above it), which nobody compensates *)
 Theorem cancelling_back_at_entry_lower ops s t :
-  reach_ok3 s -> ops_ok2 s ops = true -> ops_dlv s ops = true -> alloc_t s t ->
+  reach_ok2 s -> ops_ok2 s ops = true -> alloc_t s t ->
   clean s t -> clean (final step s ops) t ->
   (Z.of_nat (k_ncancel (tasks s t)) + ext_count s ops t <= Z.of_nat (k_ncancel (tasks (final step s ops) t)))%Z.
 Proof.
-  intros R H Hd A C0 C1.
-  pose proof (reach_ok3_ok2 s R) as R2.
-  pose proof (ops_ok3_split ops s H Hd R) as R1.
-  assert (A1 : alloc_t (final step s ops) t).
-  { clear - R2 H A. revert s R2 H A. induction ops as [|o r IH]; intros s R2 H A; cbn in *; [exact A|].
-    apply andb_true_iff in H. destruct H as [Ha H]. apply andb_true_iff in Ha. destruct Ha as [Ho Hu].
-    apply IH; [now apply reach_ok2_step|exact H|]. apply (step_ids s o (reach_ok2_sinv s R2) Ho t A). }
-  pose proof (cancelling_lower ops s t R2 H A) as L. unfold phi in L.
-  rewrite (no_debt_outside_cancelled s t) in L; auto;
-    [|apply (reach_tree s), reach_ok2_reach_ok, R2|now apply reach_dbh].
-  rewrite (no_debt_outside_cancelled (final step s ops) t) in L; auto;
-    [|apply reach_tree, reach_ok2_reach_ok, reach_ok3_ok2, R1|now apply reach_dbh].
-  lia.
+  intros R H A C0 C1.
+  pose proof (cancelling_lower ops s t R H A) as L. unfold phi in L.
+  rewrite (clean_no_debt s t R A C0) in L.
+  rewrite (clean_no_debt (final step s ops) t) in L; [lia|now apply reach_ok2_final|now apply alloc_final|exact C1].
 Qed.
 
 (* ================= decided: audit 3.2 (hand-over, then a shield) =================
@@ -174,7 +145,6 @@ Lemma count_elevated_behind_shield_witness :
   let s1 := final step s0 handover_mid in
   let s2 := final step s1 handover_post in
   ops_ok2 init (handover_pre ++ handover_mid ++ handover_post) = true /\
-  ops_dlv init (handover_pre ++ handover_mid ++ handover_post) = true /\
   k_ncancel (tasks s0 1) = 0 /\ k_cur (tasks s0 1) = Some 2 /\
   k_ncancel (tasks s1 1) = 1 /\ k_cur (tasks s1 1) = Some 2 /\ idle s1 1 = true /\
   eff_cancelled_from (nscope s1) s1 (k_cur (tasks s1 1)) = false /\
@@ -196,7 +166,7 @@ Definition child_mid : list op :=
 Lemma child_foreign_delivery_witness :
   let s0 := final step init child_pre in
   let s1 := final step s0 child_mid in
-  ops_ok2 init (child_pre ++ child_mid) = true /\ ops_dlv init (child_pre ++ child_mid) = true /\
+  ops_ok2 init (child_pre ++ child_mid) = true /\
   k_group (tasks s0 2) = Some 1 /\ k_ncancel (tasks s0 2) = 0 /\ k_cur (tasks s0 2) = Some 2 /\
   k_ncancel (tasks s1 2) = 1 /\ k_cur (tasks s1 2) = Some 2 /\ pending_of s1 2 = 0 /\ idle s1 2 = true /\
   eff_cancelled_from (nscope s1) s1 (k_cur (tasks s1 2)) = false /\
@@ -209,8 +179,31 @@ Proof. vm_compute. repeat split; reflexivity. Qed.
 Lemma back_at_entry_premises :
   let s0 := final step init [ANewRoot] in
   let ops := tl handover_pre ++ handover_mid ++ handover_post in
-  ops_ok2 init (ANewRoot :: ops) = true /\ ops_dlv init (ANewRoot :: ops) = true /\
+  ops_ok2 init (ANewRoot :: ops) = true /\
   k_cur (tasks s0 1) = None /\ k_cur (tasks (final step s0 ops) 1) = None /\
   k_group (tasks s0 1) = None /\ ext_count s0 ops 1 = 0%Z /\
   k_ncancel (tasks (final step s0 ops) 1) = k_ncancel (tasks s0 1).
 Proof. vm_compute. repeat split; reflexivity. Qed.
+
+(* clean is the shield-blind strengthening of "not effectively cancelled" *)
+Lemma clean_not_effectively_cancelled s t fuel :
+  clean s t -> eff_cancelled_from fuel s (k_cur (tasks s t)) = false.
+Proof.
+  intros C. destruct (k_cur (tasks s t)) as [x|] eqn:Ec; [|destruct fuel; reflexivity].
+  destruct (eff_cancelled_from fuel s (Some x)) eqn:E; [|reflexivity].
+  destruct (eff_anc s fuel x E) as [z [A Cz]]. rewrite (C x z Ec A) in Cz. discriminate.
+Qed.
+
+(* the same statement for one scope: from before `with scope:` to after it *)
+Corollary cancelling_back_at_entry_scope s t c mid fa :
+  reach_ok2 s -> alloc_t s t -> k_group (tasks s t) = None ->
+  let ops := AEnter t c :: mid ++ [AExit t c fa] in
+  ops_ok2 s ops = true -> clean s t -> clean (final step s ops) t ->
+  Z.of_nat (k_ncancel (tasks (final step s ops) t)) = (Z.of_nat (k_ncancel (tasks s t)) + ext_count s ops t)%Z.
+Proof. intros R A G ops H C0 C1. now apply cancelling_back_at_entry. Qed.
+
+Lemma debts_only_under_cancelled s :
+  reach_ok s ->
+  (forall x, s_host (scopes s x) = None -> s_pending (scopes s x) = 0) /\
+  (forall x, 0 < s_pending (scopes s x) -> exists y, anc s y x /\ s_cancelled (scopes s y) = true).
+Proof. intros R. exact (conj (db_un s (reach_dbh s R)) (db_w s (reach_dbh s R))). Qed.
